@@ -134,13 +134,13 @@ Definition m_join (b r : string) : option url :=
   | _ => None
   end.
 
-(* http://h/a/b?q#f -> path_segments_mut: push(".<TAB>.") (pops "b": F-C06-7), push("x/y") = http://h/a//x%2Fy?q#f ;
+(* http://h/a/b?q#f -> path_segments_mut: push(".<TAB>.") (skipped: F-C06-7 is fixed), push("x/y") = http://h/a/b/x%2Fy?q#f ;
    a:/p/q -> pop, pop, push(""), push("z w") = a:/z%20w ; a://h -> extend(["a", "..", "%2e", ""]), pop_if_empty =
    a://h/a/%252e ; joins against http://h/a/b?q#f: "../c d/./e?k" = http://h/c%20d/e?k, "https:x" = https://x/ (base
    ignored), "zz:/.//p" = zz:/.//p ; each record is a fixpoint *)
 Example reach5_example :
   match m_hist "http://h/a/b?q#f" [OPathSegments [PPush [46; 9; 46]; PPush (B "x/y")]] with
-  | Some u => list_eqb (ser u) (B "http://h/a//x%2Fy?q#f") && m_fix u | None => false end = true
+  | Some u => list_eqb (ser u) (B "http://h/a/b/x%2Fy?q#f") && m_fix u | None => false end = true
   /\ match m_hist "a:/p/q" [OPathSegments [PPop; PPop; PPush []; PPush (B "z w")]] with
      | Some u => list_eqb (ser u) (B "a:/z%20w") && m_fix u | None => false end = true
   /\ match m_hist "a://h" [OPathSegments [PExtend [B "a"; B ".."; B "%2e"; []]; PPopIfEmpty]] with
